@@ -1212,4 +1212,26 @@ Section Channel.
               | repeat match goal with o : option sigtok |- _ => destruct o end; discriminate A ].
     - rewrite (LIc_current p _ c L) in H. injection H as <-. exact Hin.
   Qed.
+
+  (* a responder signs only the successor of its current state, and what it signed is logged *)
+  Lemma resp_signed_GI s p st :
+    GI s -> (ctl (getp s p) = RSent st \/ exists g, ctl (getp s p) = RSigned st g) ->
+    exists c, current (mc (getp s p)) = Some c /\ st_final (tx_st c) = false
+              /\ st_ver st = wrap64 (st_ver (tx_st c) + 1) /\ In st (flog (getp s p)).
+  Proof.
+    intros G H. destruct (gi_li s G p) as (c & _ & _ & _ & L). exists c.
+    split; [apply (LIc_current p _ c L)|]. unfold LIc in L.
+    destruct H as [C|[g C]]; rewrite C in L.
+    - destruct L as (g0 & _ & [F V] & _ & I). auto.
+    - destruct L as (g0 & _ & _ & [F V] & _ & I). auto.
+  Qed.
+
+  Lemma versions_close_nowrap_GI s :
+    GI s -> cur_ver s PA < two64 - 1 -> cur_ver s PB < two64 - 1 ->
+    cur_ver s PA = cur_ver s PB \/ cur_ver s PA = cur_ver s PB + 1 \/ cur_ver s PB = cur_ver s PA + 1.
+  Proof.
+    intros G A B. destruct (versions_close_GI s G) as [H|[H|H]]; auto.
+    - right. left. rewrite H. apply wrap_succ. exact B.
+    - right. right. rewrite H. apply wrap_succ. exact A.
+  Qed.
 End Channel.
